@@ -33,6 +33,7 @@ from gambatools.regexp_simple_parser import parse_simple_regexp
 from gambatools.regexp_parser import parse_regexp
 
 ID = 'C19'
+GENERIC_LOGGING_KNOB = False     # this property manages the logging knob itself
 sys.setrecursionlimit(max(sys.getrecursionlimit(), 5000))
 BUDGET = 3_000_000
 MAX_STATES = 24
@@ -570,7 +571,7 @@ def gen_session(rng, n_calls):
             st['id'] = len(kinds)
             kinds[st['id']] = o.out
         steps.append(st)
-    call_idx = [i for i, s in enumerate(steps) if s['op'] not in ('make', 'text_check', 'edit')]
+    call_idx = [i for i, s in enumerate(steps) if s['op'] not in ('make', 'edit')]
     solo = sorted(rng.sample(call_idx, max(1, len(call_idx) // 3)))
     return {'sigma': sigma, 'steps': steps, 'solo': solo}
 
@@ -670,6 +671,8 @@ def run_case(case, env):
             ctx['stdout'] = buf.getvalue()
             d = d_verdict(None, ctx) if st == 'ok' else ('timeout' if st == 'timeout' else 'exc:' + val.split(':')[0])
             site = step['name']
+            if idx in solo:
+                out['solo_inputs'][str(idx)] = {'op': 'text_check', 'name': step['name'], 'texts': step['texts'], 'args': [], 'params': {}, 'sigma': case['sigma']}
             out['hist']['verdict_' + d.split(':')[0]] = out['hist'].get('verdict_' + d.split(':')[0], 0) + 1
             ops = []
         else:
@@ -751,9 +754,25 @@ def _index_of(case, oid):
 
 def run_solo(case, env):
     """One step on equal arguments rebuilt from snapshots, in a pristine process: history independence."""
-    o = OPS[case['op']]
-    args = [build(s) for s in case['args']]
     ctx = {'sigma': case['sigma'], 'stdout': ''}
+    if case['op'] == 'text_check':
+        buf = io.StringIO()
+        old = sys.stdout
+        sys.stdout = buf
+        try:
+            st, val, ticks = call(env, TEXT_CHECKS[case['name']], case['texts'], budget=BUDGET)
+        finally:
+            sys.stdout = old
+        ctx['stdout'] = buf.getvalue()
+        d = d_verdict(None, ctx) if st == 'ok' else ('timeout' if st == 'timeout' else 'exc:' + val.split(':')[0])
+        return {'digest': d, 'ticks': ticks, 'viol': [], 'evals': 1}
+    o = OPS[case['op']]
+    try:
+        args = [build(s) for s in case['args']]
+    except Exception:
+        # the in-session operand is an object the constructors refuse (e.g. an invalid grammar returned by an
+        # earlier step): "equal arguments" cannot be rebuilt, so there is nothing to compare
+        return {'digest': 'solo-unbuildable', 'ticks': 0, 'viol': [], 'evals': 0}
     d, st, val, ticks = _run_call(env, o, args, case['params'], ctx)
     return {'digest': d, 'ticks': ticks, 'viol': [], 'evals': 1}
 
@@ -770,8 +789,8 @@ def run_in_zygote(case, hashseed, fork_run):
         res['evals'] = res.get('evals', 0) + 1
         res['ticks'] = res.get('ticks', 0) + r2.get('ticks', 0)
         res.setdefault('probes', {})['solo_reexecutions'] = res.get('probes', {}).get('solo_reexecutions', 0) + 1
-        if r2['digest'] != res['steps'][int(idx)]:
-            res['viol'].append(viol('history-dependent-result', inp['op'],
+        if r2['digest'] != 'solo-unbuildable' and r2['digest'] != res['steps'][int(idx)]:
+            res['viol'].append(viol('history-dependent-result', inp.get('name') or inp['op'],
                                     {'step': int(idx), 'in_session': res['steps'][int(idx)], 'alone': r2['digest'], 'args': inp['args'], 'params': inp['params']}))
     res.pop('solo_inputs', None)
     return res
